@@ -633,7 +633,14 @@ func (w *World) syncTo(n *Node, target *StoredBlock, th uint64, label string) bo
 	lh, ctx := n.lh, n.ctx
 	blk, proof := target.block, target.proof
 	done := make(chan error, 1)
-	go func() { done <- lh.UpdateState(ctx, blk, proof) }()
+	release := func() {}
+	if w.cfg.Shape == "RT" && w.ch.Pick("sync-call-ctx", 3) == 2 {
+		// the caller uses a context of its own for this one call and releases it as soon as the call has returned
+		// (defer cancel()): what UpdateState promised must not depend on that context any more
+		ctx, release = context.WithCancel(ctx)
+		w.probe("updatestate-with-call-context")
+	}
+	go func() { e := lh.UpdateState(ctx, blk, proof); release(); done <- e }()
 	w.stimNode = n
 	w.quiesce()
 	w.stimNode = nil
